@@ -223,8 +223,9 @@ struct Out {
 }
 
 impl Out {
-    fn corr(&mut self, tag: &str, req: String, real: String) {
-        println!("{tag}{}\t{req}\t{real}", self.id);
+    /// `human`: the jq program and its input, for replays
+    fn corr(&mut self, tag: &str, req: String, real: String, human: String) {
+        println!("{tag}{}\t{req}\t{real}\t{}", self.id, human.replace(['\t', '\n'], " "));
         self.id += 1;
     }
     fn spec(&mut self, key: String, req: String, real: String, prog: &str, input: &Val) {
@@ -259,21 +260,21 @@ fn keyed_cases(p: &mut Progs, out: &mut Out, a: &[Val], kfs: &[&str]) {
         for op in KEYED_OPS {
             let prog = format!("{op}({kf})");
             let real = show_one(&p.run(&prog, &av));
-            out.corr("k", format!("c12.keyed {op} {} {tab}", vx::enc(&av)), real);
+            out.corr("k", format!("c12.keyed {op} {} {tab}", vx::enc(&av)), real, format!("{av} | {prog}"));
         }
     }
 }
 
 fn un(p: &mut Progs, out: &mut Out, op: &str, prog: &str, v: &Val) {
     let real = show_one(&p.run(prog, v));
-    out.corr("u", format!("c12.{op} {}", vx::enc(v)), real);
+    out.corr("u", format!("c12.{op} {}", vx::enc(v)), real, format!("{v} | {prog}"));
 }
 
 fn bin(p: &mut Progs, out: &mut Out, op: &str, prog: &str, x: &Val, y: &Val) {
     // programs see `[x, y]` and bind `$x`
     let code = format!(". as [$in, $x] | $in | {prog}");
     let real = show_one(&p.run(&code, &arr(vec![x.clone(), y.clone()])));
-    out.corr("b", format!("c12.{op} {} {}", vx::enc(x), vx::enc(y)), real);
+    out.corr("b", format!("c12.{op} {} {}", vx::enc(x), vx::enc(y)), real, format!("{y} as $x | {x} | {prog}"));
 }
 
 fn sub_array(rng: &mut Rng, a: &[Val]) -> Vec<Val> {
@@ -424,7 +425,7 @@ pub fn gen(tier: &str) {
         }
         for op in KEYED_OPS {
             let real = show_one(&p.run(&format!("{op}(.)"), v));
-            out.corr("k", format!("c12.keyed {op} {}", vx::enc(v)), real);
+            out.corr("k", format!("c12.keyed {op} {}", vx::enc(v)), real, format!("{v} | {op}(.)"));
         }
     }
 
@@ -452,7 +453,7 @@ pub fn gen(tier: &str) {
         un(&mut p, &mut out, "flatten0", "flatten", v);
         for w in ["boolean", "number", "string", "array", "object"] {
             let real = show_one(&p.run(&format!("is{w}"), v));
-            out.corr("u", format!("c12.is {w} {}", vx::enc(v)), real);
+            out.corr("u", format!("c12.is {w} {}", vx::enc(v)), real, format!("{v} | is{w}"));
         }
     }
     // type of every number representation
@@ -461,7 +462,7 @@ pub fn gen(tier: &str) {
         un(&mut p, &mut out, "abs", "abs", &v);
         for w in ["boolean", "number", "string", "array", "object"] {
             let real = show_one(&p.run(&format!("is{w}"), &v));
-            out.corr("u", format!("c12.is {w} {}", vx::enc(&v)), real);
+            out.corr("u", format!("c12.is {w} {}", vx::enc(&v)), real, format!("{v} | is{w}"));
         }
     }
 
@@ -522,7 +523,7 @@ pub fn gen(tier: &str) {
         for d in -2i64..=4 {
             let prog = format!("flatten({d})");
             let real = show_one(&p.run(&prog, v));
-            out.corr("f", format!("c12.flatten I{d} {}", vx::enc(v)), real.clone());
+            out.corr("f", format!("c12.flatten I{d} {}", vx::enc(v)), real.clone(), format!("{v} | {prog}"));
             // class of the deviation (filled in by the check from the two answers)
             let class = format!("{}:{}", type_name(v), if d < 0 { "negative-depth" } else { "depth>=0" });
             out.spec(format!("c12:flatten-depth:{class}"), format!("c12.flatten_spec I{d} {}", vx::enc(v)), real, &prog, v);
@@ -560,7 +561,7 @@ pub fn gen(tier: &str) {
             [Item::Val(r)] => format!("c12.bsearch_ok {} {} {}", vx::enc(&sorted), vx::enc(&x), vx::enc(r)),
             other => format!("c12.bsearch_ok {} {} N # {}", vx::enc(&sorted), vx::enc(&x), show_items(other)),
         };
-        out.corr("s", real, "ok".into());
+        out.corr("s", real, "ok".into(), format!("{x} as $x | {sorted} | bsearch($x)  (answer must satisfy the binary_search contract)"));
     }
 
     // ---- floor / round / ceil: impl-model and the exact integer
@@ -582,7 +583,7 @@ pub fn gen(tier: &str) {
     for v in &rp {
         for m in ["floor", "round", "ceil"] {
             let real = show_one(&p.run(m, v));
-            out.corr("r", format!("c12.round {m} {}", vx::enc(v)), real.clone());
+            out.corr("r", format!("c12.round {m} {}", vx::enc(v)), real.clone(), format!("{v} | {m}"));
             // key: the double the filter rounds (all literals denoting it share the key)
             let bits = match v {
                 Val::Num(_) => format!("{:016x}", jaq_std::ValT::as_f64(v).unwrap_or(f64::NAN).to_bits()),
@@ -609,7 +610,7 @@ pub fn gen(tier: &str) {
             .collect();
         for (w, prog) in [("number", "tonumber"), ("boolean", "toboolean")] {
             let real = show_items(&p.run(prog, v));
-            out.corr("t", format!("c12.totype {w} {} {}", vx::enc(v), stream.join(" ")), real.clone());
+            out.corr("t", format!("c12.totype {w} {} {}", vx::enc(v), stream.join(" ")), real.clone(), format!("{v} | {prog}"));
             let class = if fj.is_empty() { "no-output" } else if fj.len() > 1 { "several-values" } else { "single" };
             out.spec(format!("c12:totype:{prog}:{class}"), format!("c12.totype_spec {w} {} {}", vx::enc(v), stream.join(" ")), real, prog, v);
         }
@@ -679,7 +680,9 @@ def m_verify_transpose: transpose as $t |
 def m_paths(p): paths as $path | if getpath($path) | p then $path else empty end;
 def m_walk(f): def rec: (.[]? |= rec) | f; rec;
 def m_contains($x): . as $i |
-  if isstring and ($x | isstring) then any(range(0; length + 1) as $k | .[$k:] | startswith($x); .)
+  if isstring and ($x | isstring) then
+    # text against bytes (where `indices` fails) is not covered by the manual's wording: compared with ==
+    if (try (indices($x) | true) catch false) then any(range(0; length + 1) as $k | .[$k:] | startswith($x); .) else . == $x end
   elif isarray and ($x | isarray) then all($x[]; . as $v | any($i[]; m_contains($v)))
   elif isobject and ($x | isobject) then all($x | to_entries[]; . as $e | ($i | has($e.key)) and ($i[$e.key] | m_contains($e.value)))
   else . == $x end;
